@@ -40,6 +40,9 @@ class Response(object):
                 content_type = mimetype
         if content_type is None:
             content_type = self.default_content_type
+        # content types can originate from request parameters (FORMAT, INFO_FORMAT),
+        # never pass control or non-ASCII characters into the response header
+        content_type = ''.join(c for c in content_type if ' ' <= c <= '~')
         self.headers['Content-type'] = content_type
 
         if content_type.startswith(('text/', 'application/')):
